@@ -544,7 +544,7 @@ async fn gen_action<S: StateRead>(
             let bal = state.get_account_balance(&u.accts[b].addr, &basset).await.unwrap_or(0);
             let amount = if hostile { amount_around(rng, bal) } else { amount_around(rng, bal).min(bal / 2).max(1) };
             let mut intent = intent;
-            let event_id = match (rng.gen_bool(0.25), u.old_event_id(rng, b)) {
+            let event_id = match (rng.gen_bool(0.4), u.old_event_id(rng, b)) {
                 (true, Some(old)) => {
                     intent = format!("{intent}:reuse_event_id");
                     old
